@@ -306,7 +306,7 @@ def apply(state, name, desc, other=None):
     d = desc or {}
     T = _t()
 
-    if name in ("model.optimize", "model.solver=", "model.repair", "model.add_cons_vars", "model.remove_cons_vars", "util.fix_objective_as_constraint", "util.add_absolute_expression", "flux_analysis.add_loopless"):
+    if name in ("model.optimize", "model.solver=", "model.repair", "detached.copy", "model.add_cons_vars", "model.remove_cons_vars", "util.fix_objective_as_constraint", "util.add_absolute_expression", "flux_analysis.add_loopless"):
         return Result(s, T)
     if name == "model.tolerance=":
         return Result(s, _t(model={"tolerance"}))
